@@ -29,8 +29,8 @@ ORACLE_DEPS = ["plan/Sweep.vo", "plan/RRSweep.vo"]
 ORACLE_ML = [("tl_io.ml", None), ("tl_main.ml", None)]
 
 PROFILE_MIX = {
-    "SV": [("sv_const", 0.28), ("sv_sched", 0.32), ("sv_rules", 0.2), ("mixed", 0.2)],
-    "RR": [("rr_const", 0.3), ("rr_sched", 0.45), ("mixed", 0.25)],
+    "SV": [("sv_const", 0.24), ("sv_sched", 0.27), ("sv_rules", 0.17), ("mixed", 0.16), ("sv_flawless", 0.16)],
+    "RR": [("rr_const", 0.24), ("rr_sched", 0.36), ("mixed", 0.2), ("rr_flawless", 0.2)],
 }
 
 
@@ -222,7 +222,7 @@ def run_check(ctx, kind):
                 totals[k] = totals.get(k, 0) + v
         if c == cfgs[0]:
             dist[meta["profile"]] = dist.get(meta["profile"], 0) + 1
-            for k in ("zero_length", "touching", "forced_touch", "tau_var", "strict", "amount_eq_capacity", "amount_zero", "same_start", "nested", "overconstrained", "hierarchy", "sv_hierarchy", "base_predicate_on_derived_instance"):
+            for k in ("zero_length", "touching", "forced_touch", "tau_var", "strict", "amount_eq_capacity", "amount_zero", "same_start", "nested", "overconstrained", "hierarchy", "sv_hierarchy", "base_predicate_on_derived_instance", "flawless_clauses"):
                 if meta.get(k):
                     dist["with_" + k] = dist.get("with_" + k, 0) + 1
         if r.timed_out:
